@@ -27,9 +27,25 @@ type HB struct {
 	expect    map[string]bool // "owner>target" pairs that must have a live stream at quiescence
 	rules     []*HBRule
 	held      []*heldMsg
+	cliAcks   []AckRec
 
 	// Hook is called inline (proxy lock NOT held) before crossing k is applied.
 	Hook func(hb *HB, k int, c *HBConn, dir, desc string)
+}
+
+// AckRec is one AckMsg request EMITTED by a client (recorded when it enters the
+// proxy, once, whatever the proxy then does with it).
+type AckRec struct {
+	Owner  string // application name of the emitting client
+	Target string // peer id of the session partner
+	Seq    uint64 // message seqno named
+}
+
+// ClientAcks returns every AckMsg the (non-raw) clients emitted so far.
+func (hb *HB) ClientAcks() []AckRec {
+	hb.mu.Lock()
+	defer hb.mu.Unlock()
+	return append([]AckRec(nil), hb.cliAcks...)
 }
 
 // HBConn is one Session call of a client (or a raw one made by the harness).
@@ -227,6 +243,9 @@ func (hb *HB) crossReq(c *HBConn, req *signaling_rpc.SessionRequest) error {
 	desc := fmt.Sprintf("%s>S %s", c.Owner, rec.String())
 	if len(hb.order) < 600 {
 		hb.order = append(hb.order, desc)
+	}
+	if rec.Kind == "ack" && !c.Raw {
+		hb.cliAcks = append(hb.cliAcks, AckRec{Owner: c.Owner, Target: c.Target(), Seq: rec.Seq})
 	}
 	hook := hb.Hook
 	hb.mu.Unlock()
